@@ -307,6 +307,11 @@ class LinDict:
         r.update(self)
         return r
 
+    def __ior__(self, other):
+        # in place, like dict.__ior__: aliases of the mapping see the update
+        self.update(other)
+        return self
+
     def __eq__(self, other):
         if isinstance(other, dict):
             other = LinDict(other)
@@ -345,6 +350,58 @@ class LinCounter(LinDict):
                 self._vs.append(1)
             else:
                 self._vs[i] += 1
+
+    def _keep_positive(self):
+        for k, v in self.items():
+            if not v > 0:
+                self.pop(k)
+        return self
+
+    def __or__(self, other):
+        r = LinCounter(self)
+        r |= other
+        return r
+
+    def __ior__(self, other):
+        # collections.Counter: in-place union = maximum of the counts
+        for k, v in other.items():
+            if v > self[k]:
+                self[k] = v
+        return self._keep_positive()
+
+    def __add__(self, other):
+        r = LinCounter(self)
+        r += other
+        return r
+
+    def __iadd__(self, other):
+        for k, v in other.items():
+            self[k] = self[k] + v
+        return self._keep_positive()
+
+    def __sub__(self, other):
+        r = LinCounter(self)
+        r -= other
+        return r
+
+    def __isub__(self, other):
+        for k, v in other.items():
+            self[k] = self[k] - v
+        return self._keep_positive()
+
+    def __and__(self, other):
+        r = LinCounter()
+        for k, v in self.items():
+            o = other[k] if k in other else 0
+            m = v if v < o else o
+            if m > 0:
+                r[k] = m
+        return r
+
+    def __iand__(self, other):
+        r = self & other
+        self._ks, self._vs = r._ks, r._vs
+        return self
 
     def __missing__(self, k):
         return 0
